@@ -83,12 +83,14 @@ def gen_dims(rng, k=None, N=None, max_extent=5, multi_axis=False, max_hi=3):
     return dict(dense=dense, commons=commons, extents=extents, modes=modes, N=N)
 
 
-def gen_wide_dims(rng, big=False):
+def gen_wide_dims(rng, big=False, extents=None):
     """1 or 2 one-axis dims whose extent (or product of extents) straddles 2^8 (big: 2^16); rows concentrate on a
     few categories at both ends of the range so that high-numbered cells hold several rows"""
     B = 65536 if big else 256
     k = rng.choice([1, 1, 2])
-    if k == 1:
+    if extents is not None:
+        extents = list(extents)
+    elif k == 1:
         extents = [rng.choice([B // 2 + 1, B // 2 + 72, B - 1, B, B + 1, B + 44])]
     else:
         a = rng.choice([2, 3, 16, 17])
